@@ -435,6 +435,29 @@ def run_laws(task):
                         if got != ref:
                             note("cli-does-not-win:" + o, "--%s=%s gives %r, but %r once the built-in feature %s is enabled "
                                  "(%s, %s)" % (o, v, ref, got, f, form, cfgmode), a, env)
+        elif which == "independence":
+            # an option nobody sets keeps its default whatever *other* option is given on the command line; the
+            # documented dependencies are exempt: *-non-emph-style follows its base style, navigate-regex is built
+            # from the labels, diff-highlight derives the emph styles from the base styles
+            exempt = {("minus-style", "minus-non-emph-style"), ("plus-style", "plus-non-emph-style")}
+            exempt |= set((l, "navigate-regex") for l in LAW_VALUES if l.endswith("-label"))
+            for f in [None] + LAW_FEATS:
+                fa = ["--" + f] if f else []
+                ref = sc(base + fa)
+                for o, v in sorted(LAW_VALUES.items()):
+                    a = base + fa + ["--%s=%s" % (o, v)]
+                    got = sc(a)
+                    for p_ in ref:
+                        if p_ == o or (o, p_) in exempt:
+                            continue
+                        if f == "diff-highlight" and (o, p_) in (("minus-style", "minus-emph-style"),
+                                                                ("plus-style", "plus-emph-style")):
+                            continue
+                        n += 1
+                        if got.get(p_) != ref.get(p_):
+                            note("unset-option-changes:" + p_, "--%s=%s changes %s, which nobody sets, from %r to %r (feature "
+                                 "%s, %s)" % (o, v, p_, ref.get(p_), got.get(p_), f, cfgmode), a, None)
+                    distinct.add((o, f))
         else:
             dflt = sc(base)
             alone = dict((f, sc(base + ["--features=" + f])) for f in LAW_FEATS)
@@ -483,7 +506,7 @@ def main(tier):
     tasks = [(seeds, cases[i:i + step], deadline) for i in range(0, len(cases), step)]
     res = explore.pmap(run_task, tasks)
     dres = explore.pmap(run_determinism, [(list(range(8 if tier == "quick" else 32)), deadline)])
-    lres = explore.pmap(run_laws, [("cli-wins", deadline), ("last-listed", deadline)])
+    lres = explore.pmap(run_laws, [("cli-wins", deadline), ("last-listed", deadline), ("independence", deadline)])
     n = sum(r["n"] for r in res)
     orders = set()
     distinct = set()
